@@ -274,7 +274,7 @@ var strongKinds = map[string]bool{
 }
 
 var functionalKinds = map[string]bool{"ensures": true, "invariant-entry": true, "invariant-preserved": true,
-	"assert": true, "decreases": true, "requires": true}
+	"assert": true, "decreases": true, "requires": true, "typeinv": true}
 
 func (g *FnGen) oblige(kind, label, guard, cond, desc string, pos token.Pos) *Obligation {
 	r := g.root()
